@@ -15,8 +15,9 @@
         `interpolate` of the sequence took of the slots' labels, and each of those labels is the
         label supplied with the point stored in that slot (C17's ghost label).
       NOT covered here: that the label supplied *is* the evaluation's true number `nx` — that is
-      C03; broken today after hard restarts (`eval_num[0] = 1`, model.py:89), which is why the
-      harness reports such runs under the signature `C11:hard-restart-relabel(C03)`.
+      C03; broken in the pinned tree after hard restarts (`eval_num[0] = 1`, pinned model.py:89;
+      repaired by `fix:` ea879d3, `x0_eval_num`), which is why the harness reports such runs under
+      the signature `C11:hard-restart-relabel(C03)`.
   (E) algebra (exact arithmetic, `Kernels/Interp.lean`):
         `internal_fit_in_abs_coords` — the fit in `xbase`-relative coordinates is the fit in
                                (scaled) absolute coordinates, whatever the current `xbase`
@@ -271,10 +272,11 @@ end Examples
   and for `objfun(x) = A x − b` the same bound holds with `J* = A`.
 
   Missing for a proof: as for C16 (floating-point QR; LAPACK), plus C03 (labels are true
-  evaluation numbers — false today after hard restarts), plus the L2 statement that `solve`
+  evaluation numbers — false in the pinned tree after hard restarts), plus the L2 statement that `solve`
   returns `get_final_results()`'s pair (with hard restarts: the pair of the best run).
-  The harness (`harness/props/c11.py`) checks the displayed inequality on real runs with
-  C = 1e3·(n+1) and records the distribution of `lhs / (eps·cond·scale)`.
+  The harness (`harness/props/c11.py`) checks the displayed inequality (with the extra factor
+  `posfac = 1 + max(|shift|/scale + |z|)/delta` for the rounding of the evaluation points themselves)
+  on real runs with C = 32·(n+1) and records the distribution of `lhs / (eps·cond·posfac·scale)`.
 -/
 
 end C11
